@@ -718,6 +718,25 @@ def t_stringio_buffer():
     buf = StringIO()
     write('lost?')
     return (n, first, pos, buf.getvalue(), old.getvalue(), buf is old, bool(buf))
+def t_bytes_from_ints_and_translate():
+    plain = bytes(b for b in range(0x20, 0x7f) if b not in b'\\\'"')
+    return (len(plain), plain[:3], b'abc"d'.translate(None, plain), not b'abc'.translate(None, plain), 'abc'.isprintable(), 'a\nb'.isprintable(), bytes([65, 66]))
+
+def t_take_from_generator_then_rest():
+    from itertools import islice, chain
+    def gen():
+        for i in range(5):
+            yield i
+    g = gen()
+    head = list(islice(g, 2))
+    return (head, list(chain(head, g)))
+
+def t_function_identity():
+    def f():
+        return 1
+    table = {int: f}
+    g = table[int]
+    return (g is f, table.get(int) is f, table.get(str) is f)
 '''
 
 
